@@ -670,7 +670,6 @@ def _pq_canon(kind, fusion, c, detail):
     return None
 
 
-FAMILIES_PATCH = None
 from .c19_fam import FAMILIES as _F  # noqa: E402
 
 _F["packed_qkv_gqa"]["canon"] = _pq_canon
